@@ -600,7 +600,7 @@ def short(e, depth=12):
 def resite(e, site, memo):
     """give the call expressions of an inlined body the caller's call site (kept unique per callee block), so that
     site-based identity ("a distinct draw") and block-based placement ("inside the loop") refer to the caller"""
-    if not isinstance(e, tuple):
+    if not isinstance(e, tuple) or not e:
         return e
     k = id(e)
     if k in memo:
